@@ -863,6 +863,147 @@ def ck10(p, res):
     return n
 
 
+SHIFT_READS = {  # callee -> (index of the source operand, index of the shift amount or None) among the call arguments (self included)
+    "glwe_lsh": (2, 3), "glwe_lsh_add": (2, 3), "glwe_lsh_sub": (2, 3),
+    "glwe_add_into": ((2, 3), None), "glwe_sub": ((2, 3), None), "glwe_add_assign": ((2,), None), "glwe_sub_assign": ((2,), None), "glwe_sub_negate_assign": ((2,), None),
+    "glwe_negate": ((2,), None), "glwe_copy": ((2,), None), "glwe_automorphism": ((2,), None), "glwe_rotate": ((2,), None),
+}
+VALUE_PRESERVING = ("add", "sub", "neg", "rotate", "conjugate", "rescale", "align")
+
+
+def ck11(p, res):
+    """exponent balance of the value-preserving operations (add / sub / neg / rotate / conjugate / rescale): an operand with log_budget b that is shifted left by s bits and
+    lands in a result whose metadata says log_budget r still represents the same slots only if  s + r == b.  Decided per returning path (path-specific definitions, the
+    path's comparisons as side conditions) on the extracted expressions."""
+    from . import pwl
+    n = 0
+    for f in sorted(p.lib_fns(), key=lambda x: x.uid):
+        if not f.uid.startswith("poulpy_ckks::leveled::default") or f.kind == "Closure":
+            continue
+        if not any(k in f.name for k in VALUE_PRESERVING) or "mul" in f.name or "pow2" in f.name or "_pt_" in f.name or "tmp_bytes" in f.name:
+            continue
+        cts = [l for l in range(1, f.argc + 1) if "CKKSCiphertext" in f.local_ty(l)["s"]]
+        if len(cts) < 2:
+            continue
+        dst = [l for l in cts if f.local_ty(l).get("r", "").startswith("&mut")]
+        if not dst:
+            continue
+        dst = dst[0]
+        g = CFG(f)
+        paths = sc.returning_paths(f, g, cap=64)
+        if not paths:
+            continue
+        checked_paths = 0
+        bad = None
+        for path in paths:
+            flow = sc.PathFlow(f, path, transparent=T + ("to_mut", "to_ref"))
+            sym = Sym(f, sc.PathFlow(f, path))
+            # failure paths are not obligations
+            if any(st[0] == "A" and st[1] == [0] and st[2]["k"] == "Agg" and st[2].get("variant") == "Err" for b in path for st in f.blocks[b]["s"]):
+                continue
+            if any((f.callee_def(f.blocks[b]["t"]) or {}).get("n") == "from_residual" for b in path if f.blocks[b]["t"] and f.blocks[b]["t"]["k"] == "Call"):
+                continue
+            reads = {}  # operand param -> shift poly
+            multi = False
+            for b in path:
+                t = f.blocks[b]["t"]
+                if not t or t["k"] != "Call":
+                    continue
+                nm = (f.callee_def(t) or {}).get("n", "")
+                if nm not in SHIFT_READS:
+                    continue
+                srcs, ki = SHIFT_READS[nm]
+                if isinstance(srcs, int):
+                    srcs = (srcs,)
+                for si in srcs:
+                    if si >= len(t["a"]):
+                        continue
+                    for r in flow.op_roots(t["a"][si]):
+                        if r[0] == "param" and r[1] in cts and r[1] != dst:
+                            k = sym.operand(t["a"][ki]) if ki is not None else Poly()
+                            if r[1] in reads:
+                                multi = True
+                            reads[r[1]] = k
+            if not reads or multi:
+                continue
+            # metadata stored on this path: the last store to dst.meta.log_budget, or the budget of the operand whose meta() was copied wholesale
+            bud = None
+            copied_from = None  # operand whose meta() was copied into dst before the final budget store (dst.log_budget() then reads that operand's budget)
+            for b in path:
+                for st in f.blocks[b]["s"]:
+                    mf = meta_store_fields(f, st)
+                    if mf is None or not any(r[0] == "param" and r[1] == dst for r in flow.roots(st[1][0])):
+                        continue
+                    if len(mf) == 2 and mf[1] == "log_budget" and st[2]["k"] == "Use":
+                        bud = sym.operand(st[2]["o"][0])
+                    elif len(mf) == 1 and st[2]["k"] == "Use":
+                        v = sym.operand(st[2]["o"][0])
+                        at = list(v.atoms())
+                        if len(at) == 1 and at[0][0] in ("f", "call"):
+                            # dst.meta = X.meta()
+                            src = None
+                            if at[0][0] == "call":
+                                t2 = f.blocks[at[0][2]]["t"]
+                                if (f.callee_def(t2) or {}).get("n") == "meta" and t2["a"]:
+                                    rr = [r[1] for r in flow.op_roots(t2["a"][0]) if r[0] == "param"]
+                                    src = rr[0] if rr else None
+                            elif at[0][1] == "meta":
+                                pk = at[0][2][0]
+                                src = [a[1] for mono, c in pk for a in mono if a[0] == "p"]
+                                src = src[0] if src else None
+                            if src is not None:
+                                bud = Poly.atom(("f", "log_budget", (Poly.atom(("p", src, ())).key(),)))
+                                copied_from = src
+            if bud is None:
+                continue
+            conds = [sc.norm_cond(k, t) for k, t in sc.path_conditions(f, g, path, sym)]
+            checked_paths += 1
+            good = 0
+            for val in pwl.valuations(count=1500):
+                ev = pwl.Eval(p, val)
+                ev.syms[f.uid] = sym
+                try:
+                    ok = True
+                    if copied_from is not None:
+                        for acc in ("log_budget", "log_delta"):
+                            ev.val[repr(("f", acc, (Poly.atom(("p", dst, ())).key(),)))] = ev.atom(("f", acc, (Poly.atom(("p", copied_from, ())).key(),)))
+                    for c in conds:
+                        if c[0] != "cmp":
+                            continue
+                        x, y = ev.key(c[2]), ev.key(c[3])
+                        if not {"Eq": x == y, "Ne": x != y, "Lt": x < y, "Le": x <= y, "Gt": x > y, "Ge": x >= y}[c[1]]:
+                            ok = False
+                            break
+                    if not ok:
+                        continue
+                    rb = ev.poly(bud)
+                    if rb < 0:
+                        continue
+                    for X, k in reads.items():
+                        sx = ev.poly(k)
+                        bx = ev.atom(("f", "log_budget", (Poly.atom(("p", X, ())).key(),)))
+                        if sx < 0:
+                            ok = False
+                            break
+                        if sx + rb != bx and bad is None:
+                            bad = {"operand": f.param_names().get(X), "shift": sx, "result_log_budget": rb, "operand_log_budget": bx}
+                    if ok:
+                        good += 1
+                except pwl.ErrPath:
+                    continue
+        if not checked_paths:
+            continue
+        n += 1
+        if bad:
+            res.bad("CK-11", f.pretty, "shift-budget-balance:%s" % bad["operand"],
+                    "%s shifts operand `%s` by %d bits into a result marked log_budget = %d although the operand's log_budget is %d: on that path shift + result budget != operand budget, "
+                    "the operand enters the result at the wrong scale while the metadata looks right" % (f.pretty, bad["operand"], bad["shift"], bad["result_log_budget"], bad["operand_log_budget"]),
+                    site=f.where(), detail=bad)
+        else:
+            res.ok("CK-11", {"fn": f.pretty, "paths": checked_paths})
+    return n
+
+
 def run(res, tier):
     res.level = "other"
     res.explanation = ("Metadata-write and error-path discipline of the CKKS layer decided on MIR: who may write CKKSMeta, budget/precision subtractions guarded by a dominating comparison of the "
@@ -878,6 +1019,7 @@ def run(res, tier):
     res.rule("CK-8", "every out-of-place operation consults the destination's capacity (offset_unary / offset_binary / max_k / set_meta_checked) before storing source-derived metadata")
     res.rule("CK-9", "ct x ct multiplication: cnv_offset + res_log_budget == log_budget(a) + log_budget(b) on every non-error valuation (piecewise-linear identity over the extracted expressions)")
     res.rule("CK-10", "the offset returned by ensure_plaintext_alignment is used (shift amount, comparison, return value), not dropped")
+    res.rule("CK-11", "value-preserving operations: on every success path, shift(operand) + stored result log_budget == operand log_budget (path-wise piecewise-linear identity)")
     res.rule("CK-5", "an `==` fast path followed by `<`/`<=` branches compares the same pair of quantities")
     res.assumptions = ["poulpy-core shape asserts are outside this property", "metadata on Err paths is not required to be untouched"]
     cfgs = ["avx-dev"] if tier == "quick" else ["avx-dev", "ref-dev"]
@@ -892,8 +1034,10 @@ def run(res, tier):
         res.floor("CK-3", "automorphism key lookups", n3, 2)
         n4 = ck4(p, res)
         res.floor("CK-4", "out-of-place operations", n4, 25)
+        # CK-5 is subsumed by CK-11 for the functions CK-11 decides; it has no floor, so that rewriting an `==` fast path away is not an alarm
         n5 = ck5(p, res)
-        res.floor("CK-5", "comparison chains", n5, 2)
+        if n5 == 0:
+            res.ok("CK-5", {"note": "no equality fast path followed by ordering branches on this tree"})
         n7 = ck7(p, res)
         res.floor("CK-7", "core size preconditions reached with metadata-derived precision", n7, 6)
         n8 = ck8(p, res)
@@ -904,6 +1048,8 @@ def run(res, tier):
         res.floor("CK-9", "ct x pt offset derivations", n9p, 2)
         n10 = ck10(p, res)
         res.floor("CK-10", "plaintext alignment queries", n10, 4)
+        n11 = ck11(p, res)
+        res.floor("CK-11", "value-preserving operations with shifted operands", n11, 4)
         n6 = ck6(p, res)
         res.floor("CK-6", "ct x ct parameter derivations", n6, 1)
         res.fn_count += n4
